@@ -185,6 +185,8 @@ func transFiles() []transFile {
 			{file: versionGo, fn: "CompareVersions", lean: "compareVersionsGo"},
 			{file: versionGo, fn: "includesVersion", lean: "includesVersion"},
 			{file: versionGo, fn: "versionDependency.satisfies", lean: "satisfies"},
+			{file: versionGo, fn: "ParsedConstraint.SatisfiedBy", lean: "satisfiedBy",
+				calls: map[string]callVal{"cachedParseVersion": {lean: "Impl.parseVersion", t: tVersion, optErr: true}}},
 		}},
 		{out: "TransResolver", imports: []string{"Apko.Model.Resolver", "Apko.Model.TransPreludeResolver", "Apko.Generated.TransVersion"}, prefix: "repo.go", targets: []transTarget{
 			{file: repoGo, fn: "PkgResolver.getDepVersionForName", lean: "getDepVersionForName"},
